@@ -15,6 +15,7 @@ class Prop:
     TRUSTED = []
     ASSUMPTIONS = []
     PER_CASE_TIMEOUT = 20.0
+    MODEL_TIMEOUT = 120.0      # per case, for the extracted model / oracle
     RULE = ""
     CORRESPONDENCE = "model output = implementation output on every generated case"
 
@@ -68,10 +69,16 @@ def evaluate(prop, cases):
     """run impl, model and oracle on cases -> list of dict(case, impl, model, oracle_ok, same)"""
     lines = [c for c, _ in cases]
     impl = prop.impl_outputs(lines)
-    model = core.run_model(prop.ID, prop.MODEL_ENTRY, lines) if prop.MODEL_ENTRY is not None else [None] * len(lines)
+    # cases tagged "oracle-only" (too large for the executable model to be worth running on every
+    # change) are judged by the property oracle on the implementation's output alone
+    mi = [k for k, (_, tags) in enumerate(cases) if "oracle-only" not in tags]
+    model = [None] * len(lines)
+    if prop.MODEL_ENTRY is not None and mi:
+        for k, m in zip(mi, core.run_model(prop.ID, prop.MODEL_ENTRY, [lines[k] for k in mi], per_case_timeout=prop.MODEL_TIMEOUT)):
+            model[k] = m
     if prop.ORACLE_ENTRY is not None:
         pairs = [f"({c} {o})" for c, o in zip(lines, impl)]
-        orc = core.run_model(prop.ID, prop.ORACLE_ENTRY, pairs)
+        orc = core.run_model(prop.ID, prop.ORACLE_ENTRY, pairs, per_case_timeout=prop.MODEL_TIMEOUT)
     else:
         orc = ["1"] * len(lines)
     res = []
